@@ -76,6 +76,10 @@ type wnFile struct {
 	// download only fetches the chunks it needs to serve the content; an upload
 	// writes all of them). "Stays readable" means these chunks stay.
 	have map[string]bool
+	pinDelta map[string]int64 // effect of the file's last effective pin on the pin counts (C15)
+	order    []string         // data chunks in protocol order (C17)
+	apiDeleted bool           // deleted through the delete operation (not evicted)
+	partial    bool           // single chunks of it were fetched (it is not a complete known file)
 }
 
 type wnWorld struct {
@@ -90,6 +94,7 @@ type wnWorld struct {
 	cap   uint64
 	// uploadedChunks: chunk address -> number of live local uploads containing it
 	faultFree bool
+	cut       bool
 }
 
 func (w *wnWorld) file(id int64) *wnFile {
@@ -163,6 +168,14 @@ func (w *wnWorld) exec(phase int, o gosim.Op) {
 }
 
 func (w *wnWorld) exec1(phase int, o gosim.Op) {
+	if w.prop == "C15" {
+		w.exec15(phase, o)
+		return
+	}
+	w.exec0(phase, o)
+}
+
+func (w *wnWorld) exec0(phase int, o gosim.Op) {
 	r := w.r
 	switch o.K {
 	case "file":
@@ -185,6 +198,7 @@ func (w *wnWorld) exec1(phase int, o gosim.Op) {
 		}
 		w.mu.Lock()
 		f.local, f.deleted = true, false
+		f.apiDeleted = false
 		f.have = map[string]bool{}
 		for _, c := range f.chunks {
 			f.have[c] = true
@@ -213,8 +227,18 @@ func (w *wnWorld) exec1(phase int, o gosim.Op) {
 			w.c.Oracle.set(f.ref, w.n1.Addr)
 		}
 		r.Logf("cache f=%d ref=%s", f.id, f.ref)
+		w.mu.Lock()
+		f.everCached = true // even a failing download may leave chunks cached under the root
+		f.apiDeleted = false // ... and makes the node track the file again
+		w.mu.Unlock()
 		code, body := w.n0.Download(f.ref, f.name)
 		r.Logf("cache f=%d -> %d len=%d", f.id, code, len(body))
+		if code == 200 && len(r.Plan.Faults) > 0 && len(body) < len(f.content) && bytes.Equal(body, f.content[:len(body)]) {
+			// the link was lost while the body was streamed: a truncated (prefix)
+			// response is all HTTP can do after the status line went out
+			r.Count("download_truncated")
+			code = 0
+		}
 		if code == 200 {
 			if !bytes.Equal(body, f.content) {
 				r.Violate("wrong-content", "download of file %d returned %d bytes that differ from the uploaded content (%d bytes)", f.id, len(body), len(f.content))
@@ -227,6 +251,7 @@ func (w *wnWorld) exec1(phase int, o gosim.Op) {
 			}
 			w.mu.Lock()
 			f.cached, f.deleted = true, false
+			f.apiDeleted = false
 			f.everCached = true
 			if f.have == nil || !f.local {
 				f.have = have
@@ -249,6 +274,9 @@ func (w *wnWorld) exec1(phase int, o gosim.Op) {
 		}
 		code, body := w.n0.Download(f.ref, f.name)
 		r.Logf("read f=%d -> %d len=%d", f.id, code, len(body))
+		if code == 200 && len(r.Plan.Faults) > 0 && len(body) < len(f.content) && bytes.Equal(body, f.content[:len(body)]) {
+			code = 0
+		}
 		if code == 200 && !bytes.Equal(body, f.content) {
 			r.Violate("wrong-content", "read of file %d returned different bytes", f.id)
 		}
@@ -260,6 +288,48 @@ func (w *wnWorld) exec1(phase int, o gosim.Op) {
 		addr := boson.MustParseHexAddress(f.chunks[int(o.Arg(2))%len(f.chunks)])
 		_, err := w.n0.LS.Get(nkRootCtx(f.ref), storage.ModeGetRequest, addr)
 		r.Logf("get f=%d chunk=%s err=%v", f.id, addr.String()[:8], err)
+	case "nsget":
+		// read one chunk (data, intermediate or manifest) of a file through the
+		// netstore under the file's root context, as the download path does:
+		// fetched from the provider if it is not stored locally. With the 4th
+		// argument set the provider uploads the file first if nobody has it.
+		f := w.file(o.Arg(1))
+		if f == nil {
+			return
+		}
+		if o.Arg(3) == 1 {
+			w.mu.Lock()
+			needRemote := !f.remote
+			w.mu.Unlock()
+			if needRemote {
+				if err := w.uploadOn(w.n1, f, false); err == nil {
+					w.mu.Lock()
+					f.remote = true
+					w.mu.Unlock()
+					w.c.Oracle.set(f.ref, w.n1.Addr)
+				}
+			}
+		}
+		if !f.hasRef || len(f.chunks) == 0 {
+			return
+		}
+		addr := boson.MustParseHexAddress(f.chunks[int(o.Arg(2))%len(f.chunks)])
+		ctx, cancel := context.WithTimeout(nkRootCtx(f.ref), 20*time.Second)
+		_, err := w.n0.NS.Get(ctx, storage.ModeGetRequest, addr)
+		cancel()
+		r.Logf("nsget f=%d chunk=%s err=%v", f.id, addr.String()[:8], err)
+		if err == nil {
+			r.Count("probe_nsget_ok")
+			w.mu.Lock()
+			if !f.local && !f.cached {
+				f.everCached = true // chunks may now be cached under its root
+				f.partial = true
+			}
+			w.mu.Unlock()
+		}
+		w.mu.Lock()
+		f.apiDeleted = false // any read under the root may make the node track the file again
+		w.mu.Unlock()
 	case "pin":
 		f := w.file(o.Arg(1))
 		if f == nil || !f.hasRef {
@@ -298,6 +368,8 @@ func (w *wnWorld) exec1(phase int, o gosim.Op) {
 		if code == 200 {
 			w.mu.Lock()
 			f.local, f.cached, f.deleted = false, false, true
+			f.apiDeleted = true
+			f.pinned = false
 			w.mu.Unlock()
 			r.Count("probe_deleted")
 		}
@@ -352,6 +424,9 @@ func wnGen(prop string) func(rng *rand.Rand, tier string) *gosim.Plan {
 			p.Params["capacity"] = gosim.Pick(rng, 12, 50, 200)
 		}
 		ncli := 1 + rng.Intn(2)
+		if prop == "C15" {
+			ncli = 1
+		}
 		if prop == "C13" {
 			ncli = 1 + rng.Intn(3)
 		}
@@ -368,9 +443,15 @@ func wnGen(prop string) func(rng *rand.Rand, tier string) *gosim.Plan {
 				case x < 47:
 					p.Ops = append(p.Ops, gosim.Op{K: "cache", A: []int64{cl, f}})
 				case x < 55:
-					p.Ops = append(p.Ops, gosim.Op{K: "read", A: []int64{cl, f}})
-				case x < 63:
+					if prop == "C17" && x >= 50 {
+						p.Ops = append(p.Ops, gosim.Op{K: "nsget", A: []int64{cl, f, int64(rng.Intn(8)), 1}})
+					} else {
+						p.Ops = append(p.Ops, gosim.Op{K: "read", A: []int64{cl, f}})
+					}
+				case x < 59:
 					p.Ops = append(p.Ops, gosim.Op{K: "get", A: []int64{cl, f, int64(rng.Intn(8))}})
+				case x < 63:
+					p.Ops = append(p.Ops, gosim.Op{K: "nsget", A: []int64{cl, f, int64(rng.Intn(8)), int64(rng.Intn(2))}})
 				case x < 73:
 					p.Ops = append(p.Ops, gosim.Op{K: "pin", A: []int64{cl, f}})
 				case x < 81:
@@ -387,6 +468,13 @@ func wnGen(prop string) func(rng *rand.Rand, tier string) *gosim.Plan {
 				p.Ops = append(p.Ops, gosim.Op{K: "barrier"}, gosim.Op{K: "restart"})
 			}
 			p.Ops = append(p.Ops, gosim.Op{K: "barrier"})
+		}
+		// 40 % of the plans lose the link to the provider in the middle of a download
+		if rng.Intn(10) < 4 {
+			n := 1 + rng.Intn(2)
+			for i := 0; i < n; i++ {
+				p.Faults = append(p.Faults, gosim.Op{K: "cut", A: []int64{int64(1 + rng.Intn(8))}})
+			}
 		}
 		return p
 	}
@@ -421,6 +509,29 @@ func wnExec(prop string) func(r *gosim.Run) {
 		}
 		if err := w.c.Net.Link(w.n0.Net, w.n1.Net); err != nil {
 			r.Violate("setup", "link: %v", err)
+		}
+		var cutAt []int64
+		for _, ft := range r.Plan.Faults {
+			if ft.K == "cut" {
+				cutAt = append(cutAt, ft.Arg(0))
+			}
+		}
+		if len(cutAt) > 0 {
+			var deliveries int64
+			w.c.Net.Tap = func(f *simnet.Frame) {
+				if f.Protocol != "retrieval" || f.Dir != 1 {
+					return
+				}
+				deliveries++
+				for _, k := range cutAt {
+					if deliveries == k {
+						r.Logf("fault: link cut after %d chunk deliveries", k)
+						r.Count("fault_cut")
+						w.cut = true
+						go w.c.Net.Cut(w.n0.Net, w.n1.Net)
+					}
+				}
+			}
 		}
 		if r.Plan.P("tap", 0) == 1 {
 			w.c.Net.Tap = func(f *simnet.Frame) {
@@ -459,8 +570,17 @@ func wnExec(prop string) func(r *gosim.Run) {
 
 // barrier runs the oracles of the world's property at a quiescent point.
 func (w *wnWorld) barrier() {
+	if w.cut {
+		w.cut = false
+		w.c.Net.Heal(w.n0.Net, w.n1.Net)
+		if err := w.c.Net.Link(w.n0.Net, w.n1.Net); err != nil {
+			w.r.Violate("setup", "relink after heal: %v", err)
+		}
+	}
 	w.quiesce()
 	switch w.prop {
+	case "C17":
+		w.oracleC17()
 	case "C12":
 		w.oracleC12()
 	case "C13":
@@ -661,10 +781,236 @@ func (w *wnWorld) checkC16(d *nkDump, when string) {
 	}
 }
 
+// ---- C15: pin and unpin are idempotent inverses ----
+//
+// Single client, capacity far above reach (no collection interferes). Around
+// every pin / unpin / pinned upload the pin index is dumped. The pin's effect
+// on the pin counts (its delta) is measured, not predicted; the oracle demands:
+// after a pin every stored chunk of the file has a positive pin count and the
+// reference is listed; a repeated pin changes nothing; an unpin subtracts
+// exactly the delta its pin added; a repeated unpin changes nothing; the
+// reference is listed iff the last operation on it was a pin.
+
+func wnPinDiff(a, b map[string]uint64) map[string]int64 {
+	d := map[string]int64{}
+	for k, v := range a {
+		if b[k] != v {
+			d[k] = int64(b[k]) - int64(v)
+		}
+	}
+	for k, v := range b {
+		if _, ok := a[k]; !ok && v != 0 {
+			d[k] = int64(v)
+		}
+	}
+	return d
+}
+
+func wnFmtDiff(d map[string]int64) string {
+	s := ""
+	for _, k := range nkSortedKeys(d) {
+		s += fmt.Sprintf("%s:%+d ", k[:8], d[k])
+	}
+	return s
+}
+
+func (w *wnWorld) listed(f *wnFile) bool {
+	pins, err := w.n0.Pin.Pins()
+	if err != nil {
+		w.r.Violate("pins-error", "Pins(): %v", err)
+	}
+	for _, p := range pins {
+		if p.Equal(f.ref) {
+			return true
+		}
+	}
+	return false
+}
+
+func (w *wnWorld) exec15(phase int, o gosim.Op) {
+	r := w.r
+	f := w.file(o.Arg(1))
+	interesting := f != nil && (o.K == "pin" || o.K == "unpin" || (o.K == "upload" && o.Arg(2) == 1))
+	if !interesting {
+		w.exec0(phase, o)
+		return
+	}
+	gosim.Idle()
+	before := w.dump()
+	wasPinned, hadRef := f.pinned, f.hasRef
+	w.exec0(phase, o)
+	gosim.Idle()
+	after := w.dump()
+	if !f.hasRef || f.uncertain {
+		return
+	}
+	diff := wnPinDiff(before.Pin, after.Pin)
+	switch o.K {
+	case "pin", "upload":
+		ok := f.pinned && (o.K == "upload" || hadRef)
+		if !ok {
+			return // the pin did not happen (e.g. unknown reference)
+		}
+		if wasPinned {
+			r.Count("probe_c15_repeat_pin")
+			if len(diff) != 0 {
+				cls := "repeated-pin-changed-counts"
+				if o.K == "upload" {
+					// known family: re-uploading an already pinned file with the pin header
+					cls += "@pinned-upload"
+				}
+				r.Violate(cls, "file %d was already pinned; pinning it again (%s) changed pin counts: %s", f.id, o.K, wnFmtDiff(diff))
+			}
+		} else {
+			r.Count("probe_c15_first_pin")
+			f.pinDelta = diff
+			for _, c := range f.chunks {
+				if _, stored := after.Data[c]; stored && after.Pin[c] == 0 {
+					r.Violate("chunk-not-pinned", "file %d pinned (%s) but its stored chunk %s has pin count 0", f.id, o.K, c[:8])
+				}
+			}
+			for c, dv := range diff {
+				if dv < 0 {
+					r.Violate("pin-decreased-count", "pinning file %d decreased the pin count of chunk %s by %d", f.id, c[:8], -dv)
+				}
+			}
+		}
+		if !w.listed(f) {
+			r.Violate("pinned-not-listed", "file %d was pinned last but is not in the list of pinned references", f.id)
+		}
+	case "unpin":
+		if wasPinned && !f.pinned {
+			r.Count("probe_c15_unpin")
+			// must subtract exactly what the pin added
+			want := map[string]int64{}
+			for c, dv := range f.pinDelta {
+				want[c] = -dv
+			}
+			if wnFmtDiff(want) != wnFmtDiff(diff) {
+				r.Violate("unpin-not-inverse", "file %d: its pin changed the counts by [%s], the unpin by [%s]", f.id, wnFmtDiff(f.pinDelta), wnFmtDiff(diff))
+			}
+			f.pinDelta = nil
+		} else if !wasPinned {
+			r.Count("probe_c15_repeat_unpin")
+			if len(diff) != 0 {
+				r.Violate("repeated-unpin-changed-counts", "file %d is not pinned; unpinning it changed pin counts: %s", f.id, wnFmtDiff(diff))
+			}
+		} else {
+			// the unpin failed while the file was pinned: the statement is silent
+			r.Count("unpin_failed")
+			f.uncertain = true
+			return
+		}
+		if w.listed(f) {
+			r.Violate("unpinned-still-listed", "file %d was unpinned last but is still in the list of pinned references", f.id)
+		}
+	}
+}
+
+// ---- C17: availability records never overclaim ----
+
+func (w *wnWorld) dataOrder(f *wnFile) []string {
+	if f.order != nil {
+		return f.order
+	}
+	// the protocol's chunk order: first occurrence in GetChunkHashes, computed on
+	// a node that holds the whole file
+	src := w.n1
+	if !f.remote {
+		src = w.n0
+	}
+	hashes, _, err := src.Trav.GetChunkHashes(context.Background(), f.ref, nil)
+	if err != nil {
+		return nil
+	}
+	seen := map[string]bool{}
+	var order []string
+	for _, l := range hashes {
+		for _, h := range l {
+			a := boson.NewAddress(h).String()
+			if !seen[a] {
+				seen[a] = true
+				order = append(order, a)
+			}
+		}
+	}
+	if f.remote || (f.local && !f.deleted) {
+		f.order = order
+	}
+	return order
+}
+
+func (w *wnWorld) oracleC17() {
+	d := w.dump()
+	self := w.n0.Addr.String()
+	for _, f := range w.sortedFiles() {
+		if !f.hasRef || f.uncertain {
+			continue
+		}
+		recs := w.n0.CI.GetChunkInfoServerOverlays(f.ref)
+		for _, rec := range recs {
+			if rec.Overlay != self {
+				continue
+			}
+			order := w.dataOrder(f)
+			if order == nil {
+				continue
+			}
+			w.r.Count("probe_c17_record_checked")
+			all := true
+			for i := 0; i < rec.Bit.Len; i++ {
+				set := i/8 < len(rec.Bit.B) && rec.Bit.B[i/8]&(1<<uint(i%8)) != 0
+				if !set {
+					all = false
+					continue
+				}
+				if i >= len(order) {
+					w.r.Violate("bit-beyond-file", "file %d: own availability record has bit %d set but the file has only %d data chunks", f.id, i, len(order))
+				}
+				w.r.Count("probe_c17_bit_checked")
+				if _, ok := d.Data[order[i]]; !ok {
+					w.r.Violate("overclaim", "file %d (local=%v cached=%v deleted=%v): own availability record marks data chunk %d (%s) present but it is not stored", f.id, f.local, f.cached, f.deleted, i, order[i][:8])
+				}
+			}
+			if all && rec.Bit.Len > 0 {
+				w.r.Count("probe_c17_full")
+				for i, c := range order {
+					if _, ok := d.Data[c]; !ok {
+						w.r.Violate("overclaim-full", "file %d reported fully downloaded but data chunk %d (%s) is not stored", f.id, i, c[:8])
+					}
+				}
+			}
+		}
+		if f.deleted && !f.local && !f.cached && f.apiDeleted {
+			w.r.Count("probe_c17_deleted_checked")
+			if len(recs) != 0 {
+				w.r.Violate("record-after-delete", "file %d was deleted but %d availability record(s) remain in memory", f.id, len(recs))
+			}
+			if n := len(w.n0.CI.GetChunkInfoDiscoverOverlays(f.ref)); n != 0 {
+				w.r.Violate("record-after-delete", "file %d was deleted but %d discovery record(s) remain in memory", f.id, n)
+			}
+			src := w.n0.CI.GetChunkInfoSource(f.ref)
+			if src.PyramidSource != "" || len(src.ChunkSource) != 0 {
+				w.r.Violate("record-after-delete", "file %d was deleted but source records remain in memory (pyramid source %q, %d chunk sources)", f.id, src.PyramidSource, len(src.ChunkSource))
+			}
+			for _, prefix := range []string{"chunk-", "discover-", "sourceChunk-", "sourcePyramid-"} {
+				left := 0
+				_ = w.n0.State.Iterate(prefix+f.ref.String(), func(k, v []byte) (bool, error) {
+					left++
+					return false, nil
+				})
+				if left != 0 {
+					w.r.Violate("persisted-record-after-delete", "file %d was deleted but %d persisted %q record(s) remain", f.id, left, prefix)
+				}
+			}
+		}
+	}
+}
+
 func init() {
 	real := []string{"pkg/api (upload/download/delete/pin handlers via ServeHTTP)", "pkg/netstore", "pkg/localstore (+gc worker)", "pkg/shed + shed/leveldb (memory)", "pkg/chunkinfo", "pkg/retrieval", "pkg/traversal", "pkg/pinning", "pkg/file pipeline/joiner", "pkg/manifest", "pkg/subscribe", "pkg/statestore/mock"}
 	stubs := []string{"libp2p host (simnet direct streams)", "routetab (every linked peer is a neighbour)", "chain oracle (scripted)", "accounting (accept all)", "tracer off, auth off"}
-	for _, p := range []string{"C12", "C13", "C16"} {
+	for _, p := range []string{"C12", "C13", "C15", "C16", "C17"} {
 		gosim.Register(&gosim.World{Prop: p, Gen: wnGen(p), Exec: wnExec(p),
 			Native: []string{"github.com/gauss-project/aurorafs/pkg/bmt."}, Real: real, Stubs: stubs})
 	}
